@@ -62,7 +62,7 @@ type pipeCase struct {
 
 var pipeHosts = map[string]string{
 	"origin": "origin.test", "denied": "denied.test", "deniedUpper": "WWW.DENIED.TEST", "denyExcl": "excl.denied.test",
-	"direct": "direct.test", "directExcl": "excl.direct.test",
+	"direct": "direct.test", "directUpper": "WWW.DIRECT.TEST", "directExcl": "excl.direct.test",
 	"other":  "other.test",
 	"lhName": "localhost", "lhUpper": "LOCALHOST", "lo4": "127.0.0.1", "lo4b": "127.9.9.9", "lo6": "[::1]",
 	"unspec4": "0.0.0.0", "unspec6": "[::]", "unspec6b": "[::0]", "unspec6c": "[0:0:0:0:0:0:0:0]",
